@@ -536,6 +536,48 @@ func c16Check(c *core.Ctx, cs c16Case) {
 // c16Sharing: arrays are shared by reference, scalars are copied, and the local arrays and
 // scalars of a call are new for every call - also when an earlier call of the function (or of
 // another one) was left through next, nextfile, exit, getline errors or deep recursion.
+// c16ParenArgs: a call argument written in parentheses is an expression, hence a scalar use of a
+// variable it names; on an array parameter (directly, through forwarding, or because the variable is
+// an array elsewhere) that is a conflict, on a scalar parameter it is fine.
+type c16Fixed struct {
+	src    string
+	accept bool
+}
+
+func c16ParenArgs() []c16Fixed {
+	var out []c16Fixed
+	for _, arg := range []string{"(x)", "((x))", "(((x)))"} {
+		rej := []string{
+			"function f(a) { a[1] = 5 }\nBEGIN { f(%A) }",
+			"function f(a) { a[1] = 5 }\nBEGIN { f(%A); print x[1] }",
+			"function g(b) { f(b) }\nfunction f(a) { a[1] }\nBEGIN { g(%A) }",
+			"function f(a) { g(a) }\nfunction g(b) { delete b }\nBEGIN { f(%A) }",
+			"function f(a) { }\nBEGIN { f(%A); x[1] = 1 }",
+			"function f(a) { }\nBEGIN { x[1] = 1; f(%A) }",
+			"function f(a) { return length(a) }\nBEGIN { split(\"p q\", x); print f(%A) }",
+			"function f(a, b) { b[1] = a }\nBEGIN { f(1, %A) }",
+			"function f(a) { for (k in a) n++ }\nEND { f(%A) }",
+			"function f(a) { return 1 in a }\n{ f(%A) }",
+			"function f(a) { a[1] = 5 }\nfunction h(x) { f(%A) }\nBEGIN { h(1) }",
+		}
+		acc := []string{
+			"function f(a) { return a + 1 }\nBEGIN { x = 3; print f(%A) }",
+			"function f(a) { a = 7; return a }\nBEGIN { x = 3; print f(%A), x }",
+			"function f(a) { return length(a) }\nBEGIN { x = \"abc\"; print f(%A) }",
+			"function f(a) { }\nBEGIN { f(%A); x = 1 }",
+			"function f(a, b) { b[1] = a }\nBEGIN { f(%A, y); print y[1] }",
+			"function f(a) { a[1] = 5 }\nBEGIN { f(x); print x[1] }",
+		}
+		for _, r := range rej {
+			out = append(out, c16Fixed{strings.ReplaceAll(r, "%A", arg) + "\n", false})
+		}
+		for _, a := range acc {
+			out = append(out, c16Fixed{strings.ReplaceAll(a, "%A", arg) + "\n", true})
+		}
+	}
+	return out
+}
+
 func c16Sharing() []genCase {
 	input := ""
 	for k := 1; k <= 40; k++ {
@@ -638,6 +680,24 @@ func init() {
 				if c.Mine(i) {
 					c01RunCase(c, cs, "C16")
 					c.Count("sharing_cases", 1)
+				}
+			}
+			for i, fc := range c16ParenArgs() {
+				if !c.Mine(500 + i) {
+					continue
+				}
+				w := map[string]any{"paren_args": fc.src, "want_accepted": fc.accept}
+				c.Begin(w)
+				c.Eval(1)
+				r := c16Run(fc.src)
+				c.Count("paren_arg_cases", 1)
+				switch {
+				case r.bad != "":
+					c.Violation("typing-crash", "", r.bad, "accepted programs run without scalar/array failures", r.bad, w)
+				case r.accepted != fc.accept:
+					c.Violation("verdict", "paren-args", fmt.Sprintf("parser %s, the usage constraints say %s: an argument in parentheses is an expression (a scalar use of the variable inside), never a variable passed by reference", map[bool]string{true: "accepts", false: "rejects (" + r.errMsg + ")"}[r.accepted], map[bool]string{true: "accepted", false: "rejected"}[fc.accept]), fmt.Sprint(fc.accept), fmt.Sprint(r.accepted)+" "+r.errMsg, w)
+				default:
+					c.NonTrivial("paren|" + fc.src)
 				}
 			}
 			rng := c.Rand("cases")
